@@ -134,10 +134,15 @@ def generate_and_run(prop, tier, seed, idx, want_sample=False, **opts):
 
 def replay(case):
     case = copy.deepcopy(case)
+    prefix = case.pop("prefix_cases", [])
+    for pc in prefix:                   # C19: other models that ran earlier in the same interpreter (state leaking between runs)
+        execute(copy.deepcopy(pc))
     run, ob = execute(case)
     if case.get("meta", {}).get("prop") == "C19":
         d = c19_inprocess(case, run, ob)
         c19_cross(case, d, ob)
+    if prefix:
+        case["prefix_cases"] = prefix
     return _result(run, ob, case)
 
 
